@@ -148,14 +148,19 @@ TAGGED = ('"SOLO', '"SCHED', '"VSOLO')
 
 
 def tagged_lines(r: "TlcResult", tag: str, limit: int | None = None, rng=None, dedupe: bool = False) -> tuple[list[str], int]:
-    """The lines `"<tag>...` TLC printed (PrintT(tag \\o ToJson(v)): one quoted string per line), read from the file they
-    were kept in; optionally without duplicates and as a uniform seeded sample of `limit`.  -> (lines, number before sampling)"""
+    """The lines `"<tag>...` TLC printed (PrintT(tag \\o [signature \\o "|"] \\o ToJson(v)): one quoted string per line), read
+    from the file they were kept in; optionally without duplicates and as a seeded sample of `limit`.  When the lines carry a
+    behavioural signature (text between the tag and "|"), the sample is coverage-guided: one line of every distinct signature
+    first (a uniform choice of signatures if there are more than `limit`), the rest uniformly.
+    -> (lines, number before sampling); tagged_lines.signatures = (distinct, covered by the sample)"""
     import hashlib
+    tagged_lines.signatures = (0, 0)
     f = getattr(r, "tagfile", None)
     if f is None:
         return [], 0
-    pre = '"' + tag + "{"
+    pre = '"' + tag
     idx: list[int] = []
+    groups: dict[bytes, list[int]] = {}
     seen: set[bytes] = set()
     with open(f) as fi:
         for i, line in enumerate(fi):
@@ -167,9 +172,25 @@ def tagged_lines(r: "TlcResult", tag: str, limit: int | None = None, rng=None, d
                     continue
                 seen.add(h)
             idx.append(i)
+            bar, brace = line.find("|"), line.find("{")
+            if 0 < bar < brace:
+                groups.setdefault(hashlib.md5(line[len(pre):bar].encode()).digest(), []).append(i)
     total = len(idx)
     if limit is not None and rng is not None and total > limit:
-        idx = sorted(rng.sample(idx, limit))
+        if groups:
+            keys = sorted(groups)
+            if len(keys) > limit:
+                keys = rng.sample(keys, limit)
+            chosen = {rng.choice(groups[k]) for k in keys}
+            rest = [i for i in idx if i not in chosen]
+            if len(chosen) < limit:
+                chosen.update(rng.sample(rest, limit - len(chosen)))
+            tagged_lines.signatures = (len(groups), len(keys))
+            idx = sorted(chosen)
+        else:
+            idx = sorted(rng.sample(idx, limit))
+    elif groups:
+        tagged_lines.signatures = (len(groups), len(groups))
     want = set(idx)
     out = []
     with open(f) as fi:
@@ -177,7 +198,6 @@ def tagged_lines(r: "TlcResult", tag: str, limit: int | None = None, rng=None, d
             if i in want:
                 out.append(line)
     return out, total
-
 
 def tla_chunks(txt: str, tag: str) -> list[str]:
     """All `<< "TAG", ... >>` tuples printed by PrintT (possibly wrapped over lines), by bracket matching."""
